@@ -118,6 +118,7 @@ type hist = {
   mutable feat : string list;
   mutable sig_ : Buffer.t;
   mutable tw_sizes : n list;               (* sizes of pending try_with slots *)
+  mutable tw_aligns : n list;              (* and their alignments *)
   mutable tw_slots : (n * n) list;         (* implementation side: (address, size) of pending slots *)
   mutable dead : bool;
   mutable born_in_init : (n * n) list list; (* per pending initialiser: blocks allocated while it ran *)
@@ -150,7 +151,7 @@ let new_hist (line : string) : hist =
   if not (cfg_okb k) then
     report_spec ~prop:"C04" ~pred:"cfg_ok" ~detail:("the_static_EMPTY_CHUNK_or_the_constants_do_not_meet_cfg_ok:eaddr=" ^ get "eaddr" ^ "_malign=" ^ get "malign");
   { k; b = fresh; held = []; live = []; p_ab = N0; p_abim = N0; p_cap = N0; p_chunks = [];
-    feat = []; sig_ = Buffer.create 256; tw_sizes = []; tw_slots = []; dead = false; born_in_init = []; init_kept = [];
+    feat = []; sig_ = Buffer.create 256; tw_sizes = []; tw_aligns = []; tw_slots = []; dead = false; born_in_init = []; init_kept = [];
     uniform = (try n_of_string (get "uniform") with Not_found -> N0); ubytes = N0; generous = true; lim_sane = true }
 
 let lay s a = { l_size = n_of_string s; l_align = n_of_string a }
@@ -390,10 +391,13 @@ let handle_op (h : hist) (line : string) =
         report_spec ~prop:"C09" ~pred:"err_changes_nothing" ~detail:ires
     end;
     (* liveness bookkeeping + C01 / C04 on every block handed out *)
-    if kind = "reset" || kind = "drop" then (h.live <- []; h.tw_slots <- []; h.tw_sizes <- []; h.born_in_init <- []; h.init_kept <- []);
+    if kind = "reset" || kind = "drop" then (h.live <- []; h.tw_slots <- []; h.tw_sizes <- []; h.tw_aligns <- []; h.born_in_init <- []; h.init_kept <- []);
     (match kind with
      | "dealloc" -> (match mi.dies with Some d -> h.live <- remove_live d h.live | None -> ())
-     | "twbegin" -> if impl_ok then h.tw_sizes <- (match mi.mop with OTwBegin l -> l.l_size | _ -> N0) :: h.tw_sizes
+     | "twbegin" -> if impl_ok then begin
+         h.tw_sizes <- (match mi.mop with OTwBegin l -> l.l_size | _ -> N0) :: h.tw_sizes;
+         h.tw_aligns <- (match mi.mop with OTwBegin l -> l.l_align | _ -> N0) :: h.tw_aligns
+       end
      | _ -> ());
     let tw_done_ok = (if kind = "twend" && impl_ok then (match h.tw_sizes with sz :: _ -> Some sz | [] -> None) else None) in
     let via_allocator = (kind = "grow" || kind = "shrink" || (kind = "alloc" && List.mem "allocate" args)) in
@@ -431,7 +435,7 @@ let handle_op (h : hist) (line : string) =
      | "twend", _, _ ->
        (match h.tw_sizes, h.tw_slots with
         | _ :: rest, slot :: srest ->
-          h.tw_sizes <- rest; h.tw_slots <- srest;
+          h.tw_sizes <- rest; h.tw_slots <- srest; h.tw_aligns <- (match h.tw_aligns with _ :: r -> r | [] -> []);
           (* on Err the slot goes away; on Ok it stays the client's *)
           if not impl_ok then h.live <- remove_live slot h.live;
           (match h.born_in_init with
@@ -449,7 +453,12 @@ let handle_op (h : hist) (line : string) =
        | _ -> ());
       (match tw_done_ok with Some sz -> h.ubytes <- N.add h.ubytes sz | None -> ());
       let pending = List.fold_left N.add N0 h.tw_sizes in
-      if kind <> "drop" && not (sp_iter_exact o.ichunks (N.add h.ubytes pending)) then
+      (* while a slot aligned above the history's alignment is reserved (a Result<T, E> whose E is
+         wider; such an initialiser always fails here), the arena is not uniform: padding may precede
+         the slot. Once the initialiser has failed, the arena must be byte-exact again. *)
+      let over_pending = List.exists (fun a -> N.ltb h.uniform a) h.tw_aligns in
+      if over_pending then bump_count "feat:uniform_overaligned_result_pending";
+      if kind <> "drop" && not over_pending && not (sp_iter_exact o.ichunks (N.add h.ubytes pending)) then
         report_spec ~prop:"C10" ~pred:"sp_iter_exact_uniform"
           ~detail:(Printf.sprintf "align=%s allocated=%s slices=%s" (string_of_n h.uniform) (string_of_n (N.add h.ubytes pending)) (show_list show_pair o.ichunks));
       bump_count "feat:uniform_op"
